@@ -64,6 +64,8 @@ var registry = []propertySpec{
 				Bounds: "the ported regexp matcher on strings of 1..4 symbolic bytes through 7 patterns (match, submatches, replace)"},
 			{Name: "VerifSelf_Format", Quick: tierSpec{Cases: 3}, Thorough: tierSpec{Cases: 3}, Sched: -1,
 				Bounds: "fmt verbs, Itoa, json.Marshal / MarshalIndent, sort on a symbolic integer and a string of 0..2 symbolic bytes"},
+			{Name: "VerifSelf_Sort", Quick: tierSpec{Cases: 3}, Thorough: tierSpec{Cases: 3}, Sched: -1,
+				Bounds: "sort.Slice and sort.SliceStable on 13, 17 and 21 records with keys in 0..2 (three of them symbolic): the order of equal elements as the library's pdqsort leaves it"},
 		},
 		Assumptions: []string{"none: this run validates the models"},
 		Outside:     "longer strings, non-ASCII symbolic bytes, the time, reflect and sync models (validated by the per-run trace comparison of the property checks)",
